@@ -83,6 +83,8 @@ where
             {
                 return_current!()
             }
+            // a window that was never committed must not outlive its iteration
+            StreamElement::Terminate | StreamElement::FlushAndRestart => self.w = None,
             StreamElement::Item(_) => panic!(
                 "Non timestamped streams are not currently supported with transaction windows!"
             ),
